@@ -3,6 +3,17 @@
 (patch.diff, demo.py, meta.json) and record what was run and which checks caught them."""
 import json, os, shutil, sys
 HOME = os.path.dirname(os.path.dirname(os.path.abspath(__file__)))
+NOTES = {
+ "C03-1a": "first run of C03 missed it (every (policy, type) pair in the store had a single owner); C03 gained a Locate store with mixed owners per pair and smaller per-history type/policy pools",
+ "C03-1b": "a concurrency change: invisible to C03's sequential histories by nature, caught by C10 (schedules)",
+ "C07-1b": "first run of C07 missed it (Destroy was only sent as a single-item request); C07 gained destroy-in-batch steps (followed by a failing or succeeding item)",
+ "C10-1b": "first run of C10 missed it (per-yield-point coin flips rarely switch exactly at lock hand-over); C10 gained schedules with a switch probability per KIND of yield point",
+ "C19-1b": "first run of C19 missed it (one protocol version per client object); the real-engine part now changes client.kmip_version between calls",
+ "C05-1a": "first run of C05 missed it (the object under test was never read between store and read-back); C05 gained read-only interference steps incl. wrapped Get batched with a committing item",
+ "C12-1a": "first run of C12 classified it into an existing coarse known-finding bucket; the lenient-acceptance buckets now name the message-level shape / the operation",
+ "C16-1b": "first run of C16 missed it (the library's own writer refuses to emit the field below 2.0); C16 now grafts the field into encoded requests",
+ "C13-1b": "first run ended in a harness error (the fixture store could not be built); C13 now judges the fixture-building requests themselves",
+}
 rows = {}
 for log in sys.argv[1:]:
     for line in open(log):
@@ -31,5 +42,7 @@ for name, r in sorted(rows.items()):
         "how": "tools/confirm_seed.sh: scratch git worktree of /repo HEAD under /tmp, demo run clean, patch applied with git apply, demo run again, full repository suite compared with BASELINE.json stable_pass, checks run with VERIF_REPO pointing at the patched worktree, worktree removed"}
     meta["checks_run"] = {c: {"caught": v["exit"] == 1, "exit": v["exit"], "buckets": v.get("buckets", "")} for c, v in r["checks"].items()}
     meta["caught_by"] = sorted(c for c, v in r["checks"].items() if v["exit"] == 1)
+    if name in NOTES:
+        meta["history"] = NOTES[name]
     json.dump(meta, open(os.path.join(dst, "meta.json"), "w"), indent=1)
     print("%-8s caught_by=%s" % (name, meta["caught_by"]))
